@@ -40,7 +40,11 @@ func c17Source(k int, shape int, asPackage bool) string {
 	fmt.Fprintf(&sb, "type T struct {\n\tN int\n\tLabel string\n}\n\ntype H struct {\n\tF func() string\n\tG func(int) string\n\tP func(int) string\n}\n\ntype Namer interface {\n\tM() string\n}\n\n")
 	// state
 	sb.WriteString("var keep int\nvar loads int\nvar saved func() string\nvar savedG func(int) string\nvar obj *T\nvar bound func() string\nvar boundP func(int) string\nvar holder *H\nvar list []func() string\nvar anyKeep any\nvar namer Namer\nvar lastErr error\n")
-	fmt.Fprintf(&sb, "var reset = %d\nvar resetS = \"init-v%d\"\n\n", 100*k, k)
+	fmt.Fprintf(&sb, "var reset = %d\nvar resetS = \"init-v%d\"\n", 100*k, k)
+	// initialisers that spell the zero value are initialisers all the same
+	sb.WriteString("var zi int = 0\nvar zb bool = false\nvar zs string = \"\"\nvar zf = 0.0\n\n")
+	// locals that shadow package variables, updated by compound assignment and ++
+	sb.WriteString("func Bump() int {\n\tkeep := 1\n\tkeep += 5\n\tkeep++\n\tloads := 10\n\tloads -= 3\n\tloads--\n\treset := 2\n\treset *= 4\n\treturn keep*100 + loads*10 + reset\n}\n\n")
 	// helper whose arity changes between versions (used consistently inside one version)
 	if (shape+k)%2 == 0 {
 		fmt.Fprintf(&sb, "func helper(a int) string {\n\treturn \"h%d:\" + fmt.Sprint(a)\n}\n\n", k)
@@ -64,9 +68,9 @@ func c17Source(k int, shape int, asPackage bool) string {
 		sb.WriteString("const HasExtra = false\n\n")
 	}
 	sb.WriteString("func init() {\n\tloads++\n}\n\n")
-	sb.WriteString("func Tick() {\n\tkeep++\n\treset++\n\tresetS += \"+\"\n\tanyKeep = keep\n\tif obj != nil {\n\t\tobj.N += 10\n\t}\n}\n\n")
+	sb.WriteString("func Tick() {\n\tkeep++\n\treset++\n\tresetS += \"+\"\n\tzi++\n\tzb = true\n\tzs += \"t\"\n\tzf += 0.5\n\tanyKeep = keep\n\tif obj != nil {\n\t\tobj.N += 10\n\t}\n}\n\n")
 	sb.WriteString("func Capture() {\n\tsaved = f0\n\tsavedG = g\n\tobj = &T{N: keep, Label: \"L\"}\n\tbound = obj.M\n\tboundP = obj.P\n\tholder = &H{F: f1, G: g, P: obj.P}\n\tlist = append(list, f1)\n\tnamer = obj\n\tlastErr = errors.New(\"e\" + fmt.Sprint(keep))\n}\n\n")
-	sb.WriteString("func Report() string {\n\ts := f0() + \" \" + f1() + \" \" + g(2)\n\tif saved != nil {\n\t\ts += \" saved=\" + saved() + \" savedG=\" + savedG(3) + \" bound=\" + bound() + \" holder=\" + holder.F() + holder.G(4) + \" obj=\" + obj.M() + \" boundP=\" + boundP(5) + \" holderP=\" + holder.P(6) + \" namer=\" + namer.M() + \" err=\" + lastErr.Error()\n\t\tfor _, f := range list {\n\t\t\ts += \" l=\" + f()\n\t\t}\n\t} else {\n\t\ts += \" saved=nil\"\n\t}\n\tif obj != nil && HasExtra {\n\t\ts += \" extra=\" + obj.Extra()\n\t}\n\tif anyKeep != nil {\n\t\ts += \" any=\" + fmt.Sprint(anyKeep)\n\t} else {\n\t\ts += \" any=nil\"\n\t}\n\treturn s + \" keep=\" + fmt.Sprint(keep) + \" reset=\" + fmt.Sprint(reset) + \" resetS=\" + resetS + \" loads=\" + fmt.Sprint(loads)\n}\n")
+	sb.WriteString("func Report() string {\n\ts := f0() + \" \" + f1() + \" \" + g(2)\n\tif saved != nil {\n\t\ts += \" saved=\" + saved() + \" savedG=\" + savedG(3) + \" bound=\" + bound() + \" holder=\" + holder.F() + holder.G(4) + \" obj=\" + obj.M() + \" boundP=\" + boundP(5) + \" holderP=\" + holder.P(6) + \" namer=\" + namer.M() + \" err=\" + lastErr.Error()\n\t\tfor _, f := range list {\n\t\t\ts += \" l=\" + f()\n\t\t}\n\t} else {\n\t\ts += \" saved=nil\"\n\t}\n\tif obj != nil && HasExtra {\n\t\ts += \" extra=\" + obj.Extra()\n\t}\n\tif anyKeep != nil {\n\t\ts += \" any=\" + fmt.Sprint(anyKeep)\n\t} else {\n\t\ts += \" any=nil\"\n\t}\n\ts += \" bump=\" + fmt.Sprint(Bump()) + \" z=\" + fmt.Sprint(zi) + fmt.Sprint(zb) + zs + fmt.Sprint(zf)\n\treturn s + \" keep=\" + fmt.Sprint(keep) + \" reset=\" + fmt.Sprint(reset) + \" resetS=\" + resetS + \" loads=\" + fmt.Sprint(loads)\n}\n")
 	return sb.String()
 }
 
@@ -81,6 +85,7 @@ type c17Model struct {
 	objN      int
 	listLen   int
 	errN      int
+	zticks    int // ticks since the last load: variables whose initialiser is a zero value are re-initialised too
 	evalLoads int
 }
 
@@ -112,6 +117,7 @@ func (m *c17Model) report() string {
 	} else {
 		s += " any=nil"
 	}
+	s += fmt.Sprintf(" bump=768 z=%d%v%s%v", m.zticks, m.zticks > 0, strings.Repeat("t", m.zticks), float64(m.zticks)/2)
 	return s + fmt.Sprintf(" keep=%d reset=%d resetS=%s loads=%d", m.keep, m.reset, m.resetS, m.loads)
 }
 
@@ -170,6 +176,7 @@ func c17Run(c c17Case) (what string, trace []string) {
 			model.loads++
 			model.reset = 100 * st.Ver
 			model.resetS = fmt.Sprintf("init-v%d", st.Ver)
+			model.zticks = 0
 			trace = append(trace, fmt.Sprintf("load v%d", st.Ver))
 		case "tick":
 			if o := m.Call(prefix+"Tick", 0); o.Failed() {
@@ -178,6 +185,7 @@ func c17Run(c c17Case) (what string, trace []string) {
 			model.keep++
 			model.reset++
 			model.resetS += "+"
+			model.zticks++
 			if model.captured {
 				model.objN += 10
 			}
@@ -207,7 +215,7 @@ func c17Run(c c17Case) (what string, trace []string) {
 }
 
 func runC17(r *core.Run) {
-	r.SetRule("histories of 5-30 steps (load version k of 2-6, reload the same version, tick, capture, report) over a generated package whose function and method bodies return a version tag; captured before reloads: a function value in a no-initialiser global, function values in struct fields and in a slice, a bound method value, an instance; state: no-initialiser int and counters (kept), int and string variables with initialisers (re-initialised); versions also differ in the arity of an internal helper and in added methods; through Load of a package and through repeated Eval of the definitions. non-trivial = at least 2 loads and 1 report after a capture; distinct by history")
+	r.SetRule("histories of 5-30 steps (load version k of 2-6, reload the same version, tick, capture, report) over a generated package whose function and method bodies return a version tag; captured before reloads: a function value in a no-initialiser global, function values in struct fields and in a slice, a bound method value, an instance; state: no-initialiser int and counters (kept), int and string variables with initialisers (re-initialised), variables whose initialiser spells the zero value (re-initialised), a function whose locals shadow package variables and are updated with += / ++ ; versions also differ in the arity of an internal helper and in added methods; through Load of a package and through repeated Eval of the definitions. non-trivial = at least 2 loads and 1 report after a capture; distinct by history")
 	r.Assume("the model encodes the contract stated in the property: after loading version k every function and method - also through references captured earlier - runs version k's body; variables without initialiser keep their values, variables with initialiser are reset, instances keep their fields")
 	n := r.N(3000, 120000)
 	core.Parallel((n+49)/50, func(chunk int) {
